@@ -830,6 +830,7 @@ def _drive(rep, src, n_quick, n_thorough):
     )
     rep.rule = "a case is one source file + one target game (real read -> real convert -> real write -> target oracle vs source oracle); non-trivial when the score has a tempo change and a hold; every source file is first parsed by its own oracle and compared with the score it was made from (self-check)"
     per = {t: 0 for t in tgts}
+    by_clause, classes = {}, dict(beat0_not_at_0ms=0, top_column_unused=0, whole_ms_object_times=0, long_20_to_60_measures=0)
     simple = {t: simple_cases(src, t) for t in tgts}
     for i in range(-max(len(v) for v in simple.values()), N):
         for tgt in tgts:
@@ -844,9 +845,16 @@ def _drive(rep, src, n_quick, n_thorough):
                 case = gen_case(rng, src, tgt)
             rep.case(case, nontrivial=_nontrivial(case))
             per[tgt] += 1
+            classes["beat0_not_at_0ms"] += case["score"]["t0"] != 0
+            classes["top_column_unused"] += _top_column_unused(case)
+            classes["whole_ms_object_times"] += bool(case.get("int_ms"))
+            classes["long_20_to_60_measures"] += max(Fraction(o[1]) for ch in case["score"]["charts"] for o in ch["objs"]) >= 28
             for what, d in run_case(case):
+                by_clause[what] = by_clause.get(what, 0) + 1
                 rep.fail(what, case, d)
     rep.extra["cases_per_pair"] = {f"{NAME[src]}To{NAME[t]}": n for t, n in per.items()}
+    rep.extra["cases_by_class"] = classes
+    rep.extra["failing_cases_by_clause"] = by_clause
 
 
 @bounded("C09", note="generated .osu files -> real OsuMap.read -> OsuToQua / OsuToSM / OsuToBMS -> real write -> den_qua / den_sm / den_bms of the written text vs den_osu of the source: valid, same objects, columns, hold ends, tempo timeline")
